@@ -39,7 +39,7 @@ def exc_kind(e):
 
 def real_get_key(seq, enc, mode, full):
     """the real events.get_key on a sequence of ints"""
-    return ev.get_key([B[b] for b in seq], ENCS[enc], keynames=MODES[mode], full=full)
+    return ev.get_key([B[b] for b in seq], ENCS.get(enc, enc), keynames=MODES[mode], full=full)
 
 
 def impl_getkey(seq, enc, mode, full):
@@ -119,6 +119,44 @@ def e2e_segment(buf, enc, mode):
         return exc_kind(e)
     finally:
         cinput.getpreferredencoding = saved
+    return out
+
+
+class _FdStream:
+    def __init__(self, fd):
+        self.fd = fd
+
+    def fileno(self):
+        return self.fd
+
+
+def burst_through_input(buf, enc, paste_threshold):
+    """One arrival of `buf` on a pipe read by the REAL Input object (its own select / os.read(READ_SIZE) / paste
+    loop / find_key): -> the keys that come back, in order (events of PasteEvents flattened), a final
+    'RAISED <kind>' if send() raised."""
+    import os
+    r, w = os.pipe()
+    kw = {} if paste_threshold == "default" else {"paste_threshold": paste_threshold}
+    inp = cinput.Input(in_stream=_FdStream(r), sigint_event=False, **kw)
+    saved = cinput.getpreferredencoding
+    cinput.getpreferredencoding = lambda: ENCS[enc]
+    out = []
+    try:
+        os.write(w, bytes(buf))
+        for _ in range(len(buf) + 5):
+            e = inp.send(0)
+            if e is None:
+                break
+            if isinstance(e, ev.PasteEvent):
+                out.extend(e.events)
+            else:
+                out.append(e)
+    except Exception as x:  # noqa: BLE001
+        out.append("RAISED " + type(x).__name__)
+    finally:
+        cinput.getpreferredencoding = saved
+        os.close(r)
+        os.close(w)
     return out
 
 
